@@ -274,14 +274,17 @@ PROPS = {
             "without NaN with +0/-0 identified, but not proved for the soft-float itself",
             "completeness directions of ContainsInterval / InteriorContainsInterval / InteriorIntersects are proved for a densely ordered "
             "carrier (intervals denote arcs of the real circle); on the float grid alone they fail for 1-ulp gaps (documented in C19.lean)",
-            "caps: CapLaws (dist in [0,4], dist(x,x)=0, clamping of Add/Sub/Expanded, unit-ness of -c) hold for the float code by "
-            "construction but are not proved for the soft-float; ChordLaws (triangle inequality in chord-angle form, monotonicity of "
-            "ChordAngle.Add, a <= Add a b, slack of AddCap) are exact geometry which floats satisfy only up to rounding: the theorems "
-            "using them are _partial and the oracle measures the float code against them",
+            "caps: the abstract theorems use CapLaws / ChordLaws (exact chord geometry); for the SOFT-FLOAT ITSELF package c19capf64 "
+            "(Properties/C19_CapBinary64.lean) proves, with no carrier law and no rounding assumption left, for every vector that is Normalize-grade "
+            "(nunitB: | |v|^2 - 1 | <= (289/64) 2^-52 exactly, which V3.normalize is PROVED to deliver: nunitB_normalize): AddPoint, AddCap (the 1.5 maxErr "
+            "allowance of repair D29 is sufficient), Union (for every outcome of its trigonometric part), Expanded (r <= r.Add(dc) holds exactly in binary64) "
+            "keep every accepted point and stay valid; Complement stays valid; the exact readings of Contains-sound, Intersects-complete and "
+            "Complement-covers are REFUTED for binary64 by kernel-checked ulp-level witnesses inside the contract (the methods carry no allowance) and "
+            "proved up to 25 2^-52 relative + 22 2^-104 (44 2^-52 absolute for Complement) on the squared chord",
             "not modelled (libm): ChordAngleFromAngle (sin; Go's value is passed on the line), ChordAngle.Angle, Cap.RectBound and the "
             "trigonometric part of Cap.Union (its outcome is a parameter of CapM.unionWith); Cap.Union is judged on Go's output only",
-            "the error analysis of Cap.AddCap's allowance (comment in s2/cap.go) is an argument on paper, validated by the adversarial "
-            "search, not a Lean theorem",
+            "the error analysis of Cap.AddCap's allowance is now a Lean theorem (cap_addCap_contains_f64; budget: needed 10.6 of the 10.75 available in "
+            "first order); the comment in s2/cap.go uses 4.5 dblEpsilon where 6.5 is right, which the safety factor 1.5 happens to cover",
             "the rounding allowance used when judging cap Contains / Intersects / Complement at tangency (formula above) is a choice of "
             "this check, not a documented bound of the library",
             "export hook s2.VerifRectExpanded (s2/verif_export_c19.go, build tag verif) exposes the unexported Rect.expanded",
@@ -290,7 +293,7 @@ PROPS = {
             "s1 intervals satisfy IsValid and circle points lie in [-pi, pi] (documented domain); lat-lng rectangles satisfy IsValid",
             "r2.Rect.Contains / InteriorContains are judged for valid arguments (x empty iff y empty)",
             "ClampPoint / Project are called on non-empty intervals only (documented)",
-            "caps satisfy IsValid, probe points satisfy IsUnit, Cap.Expanded is called with distance >= 0 (upstream C++ contract)",
+            "caps satisfy IsValid, probe points satisfy IsUnit (the binary64 cap theorems need the stronger Normalize grade nunitB: addCap_needs_normalized shows IsUnit alone is not enough), Cap.Expanded is called with distance >= 0 (upstream C++ contract)",
             "no NaN and no infinities among the inputs",
         ],
         "level_text": "proof (Lean 4): 81 theorems over abstract linearly ordered carriers for r1.Interval, s1.Interval, r2.Rect, the lat-lng "
